@@ -59,7 +59,8 @@ Definition cmp_phys (p1 p2 : option Z) : list Z :=
 Definition cmp_extra (e1 e2 : qextra) : list Z :=
   match e1, e2 with
   | XPhysConst a, XPhysConst b => when (negb (a =? b)) L_const
-  | XValue (Some a), XValue (Some b) => when (negb (a =? b)) L_default
+  (* since the fix commit: a default value which appears or disappears is reported, too *)
+  | XValue a, XValue b => when (negb (oZ_eqb a b)) L_default
   | _, _ => []
   end.
 
